@@ -120,7 +120,9 @@ claim("C11",
       "action or by the reset; hence within an episode every agent's view only grows, whatever happens in between), "
       "C11_lifting (the general principle: any world/view relation kept by the world model is kept by the whole game). 'A returned view is never modified later' is a heap-aliasing statement the "
       "value-semantic model cannot express: it is decided by deep snapshots of every GameState returned by register/step/reset "
-      "re-compared after every later step (partial, labelled so).", W_NOTE, W_TECH, "DESIGN.md section 7, C11")
+      "re-compared after every later step (partial, labelled so). Under dynamic addresses (outside the static world model) a probe "
+      "checks every returned view of an Attacker with a random start and a Defender with all_local, over three episodes, for "
+      "well-formedness and anchoring in the current re-labelled world.", W_NOTE, W_TECH, "DESIGN.md section 7, C11")
 claim("C12",
       "Rocq theorems over the multi-agent state machine: C12_own / C12_no_gift (an action of agent b leaves every other agent's "
       "view exactly as it was), C12_channel (a step depends on the world only through hosts, networks, services, data, firewall and "
@@ -136,7 +138,9 @@ C_NOTE = ("Trusted: Coq kernel + VM; the hand-written LTS Model/Coord.v is tied 
           "asyncio scheduling is abstracted to 'any enabled atomic segment may run'; TCP to one message per read with explicit "
           "EOF/read-error/write-error events; connection addresses are fresh in the model - that the coordinator keeps nothing under a "
           "departed agent's address is checked by the address-reuse twin (each session replayed with later connections coming from "
-          "departed agents' addresses must answer identically).")
+          "departed agents' addresses must answer identically); the protocol and the model know no time-outs - a monitor counts the "
+          "timers armed beyond the idle coordinator's heart-beats and, if there are any, advances a virtual clock and examines what "
+          "the agents receive.")
 C_TECH = "machine-checked proof in Rocq (Coq 8.16) over a labelled-transition-system model of the coordinator (inductive invariant for all label sequences) + trace-following model/code correspondence + source-shape translator + direct monitor"
 
 claim("C01",
@@ -281,7 +285,8 @@ claim("C20",
       "independence of process, hash randomisation and wall-clock time, and the reproducible configuration hash - is a runtime "
       "property no executable model exhibits; it is decided by cross-process runs: identical multi-episode probe sessions (three attackers with random start hosts and a "
       "defender, collective resets, refused requests of every kind; also with the global defender on, so that its detection "
-      "draws are part of the transcripts) "
+      "draws are part of the transcripts; every worker plays its session twice in one process, with two coordinators started one "
+      "after the other on the same configuration file) "
       "(static and dynamic addresses, all playable shipped scenarios, several seeds) in separate interpreter processes with "
       "different PYTHONHASHSEED values must give identical decoded transcripts, address maps and hashes; hashes must differ between "
       "scenarios. Labelled partial.",
